@@ -390,6 +390,29 @@ example :
   · subst hp; simp at h; subst h; simp
   · simp [hp] at h
 
+/-- Several stacks: when two unrelated commands hold the lock of stack `d` in their bodies, one of them exclusively,
+the history of that stack — a schedule of the single-directory model, by projection — contains one of the three races.
+(The other way to break `MutexM`, a command in its body *without* a lock on `d`, is the trepidation exit itself.) -/
+theorem C09_path_violation_has_race (kind : Pid → Kind) (lp : Pid → Option Pid) (tries : Pid → Nat)
+    (path : Pid → List LockPath.Dir) (explicit : Pid → Bool) (hflat : Flat lp) (sched : List Pid)
+    (d : LockPath.Dir) (p q : Pid) (hpq : p ≠ q)
+    (hnrel : ¬ related ((LockPath.mrun (LockPath.minit kind lp tries path explicit) sched).comp d) p q)
+    (hp : ((LockPath.mrun (LockPath.minit kind lp tries path explicit) sched).comp d).pc p = .hold)
+    (hq : ((LockPath.mrun (LockPath.minit kind lp tries path explicit) sched).comp d).pc q = .hold)
+    (hk : kind p = .ex) :
+    ∃ sd pre x post, ((LockPath.mrun (LockPath.minit kind lp tries path explicit) sched).comp d) =
+        run (init kind lp tries) sd ∧ sd = pre ++ x :: post ∧
+      (RaceA (run (init kind lp tries) pre) x ∨ RaceB (run (init kind lp tries) pre) x ∨
+       RaceC (run (init kind lp tries) pre) x) := by
+  obtain ⟨sd, hsd⟩ := C09_path_projection kind lp tries path explicit sched d
+  rw [hsd] at hnrel hp hq
+  have hv : ¬ Mutex (run (init kind lp tries) sd) := by
+    intro hm
+    have := hm p q hpq hnrel hp (by simp [init, hk])
+    rw [hq] at this; simp [inBody] at this
+  obtain ⟨pre, x, post, he, hr⟩ := C09_violation_has_race kind lp tries hflat sd hv
+  exact ⟨sd, pre, x, post, hsd, he, hr⟩
+
 /-- The property as stated is false of the protocol. -/
 theorem C09_mutex_false : ¬ MutexAlways := by
   intro h
